@@ -919,6 +919,19 @@ func (mpt *MerklePatriciaTrie) insertNode(oldNode Node, newNode Node) (Node, Key
 	return newNode, ckey, nil
 }
 
+// insertForeignNode stores a node obtained from another store under the hash it
+// already has. Unlike insertNode it must not re-stamp the origin: that would
+// change the hash its parent refers to and modify the other store's object.
+func (mpt *MerklePatriciaTrie) insertForeignNode(node Node) error {
+	ckey := node.GetHashBytes()
+	if err := mpt.db.PutNode(ckey, node); err != nil {
+		return err
+	}
+	mpt.cache.Set(string(ckey), node)
+	mpt.ChangeCollector.AddChange(nil, node)
+	return nil
+}
+
 func (mpt *MerklePatriciaTrie) deleteNode(node Node) error {
 	if DebugMPTNode {
 		Logger.Info("delete node", zap.String("dn", node.GetHash()))
@@ -1149,8 +1162,7 @@ func (mpt *MerklePatriciaTrie) MergeDB(ndb NodeDB, root Key, deadNodes []Node) e
 	mpt.mutex.Lock()
 	defer mpt.mutex.Unlock()
 	handler := func(ctx context.Context, key Key, node Node) error {
-		_, _, err := mpt.insertNode(nil, node)
-		return err
+		return mpt.insertForeignNode(node)
 	}
 	mpt.root = root
 	mpt.deleteNodes = append(mpt.deleteNodes, deadNodes...)
